@@ -475,7 +475,7 @@ func runC02(p *core.Prog, r *core.Report, tier string) {
 	nAtomic := 0
 	for _, f := range fns {
 		nAtomic += checkTestAndSetAtomic(p, r, la, "C02.i", f, jobsField,
-			"the job-name lock is released between testing that the name is free and inserting the job: two concurrent requests for one name both pass the test, the second insert replaces the first job in the table, and both goroutines run the job")
+			"the job-name lock is released between testing that the name is free and inserting the job: two concurrent requests for one name both pass the test, the second insert replaces the first job in the table, and both goroutines run the job", true)
 	}
 	r.Floor("C02.i name test/insert pairs", nAtomic, 2)
 
